@@ -641,12 +641,12 @@ example : (requestService (0 + 11 + 11 + 8) lvSt 0 lvB).2 = true :=
     lvWarmA lvWarmB (by decide) (by decide) (by decide) (lvPathAB _ (by decide) (by decide)) (lvPathBA _ (by decide) (by decide))
     (by decide) (by decide)
 
-/-- "every device on the path permits" is a real precondition: without the router's permit rule `transitOk` fails … -/
 /-- a frame ENTERING THE FIREWALL ON ITS DMZ PORT (arrival port 2) is a transit frame, too, when the destination's cache entry
 names an outbound port whose list permits (`_process_dmz_outbound_frame`): `Hop` / `journey` / both liveness theorems cover
 paths through the DMZ port; remove the external-outbound permit and it is not. -/
 example : transitOk lvFw 2 (.echoReq 0) lvB = true := by decide
 example : transitOk { lvFw with fw := some (everyList.filter (· != (1, 1))) } 2 (.echoReq 0) lvB = false := by decide
+/-- "every device on the path permits" is a real precondition: without the router's permit rule `transitOk` fails … -/
 example : transitOk { lvR with flag := false } 0 .dataReq lvB = false := by decide
 /-- … and so it does when the firewall's external-outbound list does not permit ICMP. -/
 example : transitOk { lvFw with fw := some (everyList.filter (· != (1, 1))) } 1 (.echoReq 0) lvB = false := by decide
